@@ -113,7 +113,7 @@ def name_of_path(d: pathlib.Path, p) -> str:
 class Snapshots:
     """Three distinguishable, genuinely resumable emu-mps snapshots (mid-run solver objects)."""
 
-    def __init__(self):
+    def __init__(self, pad: int = 0):
         import logging
         from emu_mps import MPSConfig
         from emu_mps.mps_backend_impl import create_impl
@@ -129,6 +129,10 @@ class Snapshots:
             impl.init()
             impl.progress()  # one of two time steps done
             assert not impl.is_finished()
+            if pad:  # make the pickle much larger than any file/pickle-frame buffer
+                import torch
+
+                impl._verif_pad = torch.arange(pad, dtype=torch.float64)
             self.blob = {}
             for t in ("Old", "New", "Other"):
                 impl._verif_token = t
@@ -325,6 +329,195 @@ def try_resume(adv: pathlib.Path):
         return {"ok": False, "error": f"{type(ex).__name__}: {str(ex)[:200]}", "dir_before": before}
 
 
+# ---- crash-instant oracle: what a SIGKILL would leave ON DISK at every point of the real routine ---------------
+class _FileProxy:
+    """The handle `open(.., "wb")` returns while the oracle runs: every write / flush / close is a crash point.
+    Nothing is flushed or closed by the harness: bytes still in Python's buffer are NOT on disk."""
+
+    def __init__(self, fh, orc, name):
+        self._fh, self._orc, self._name = fh, orc, name
+
+    def write(self, b):
+        self._orc.point(f"before write({self._name})")
+        r = self._fh.write(b)
+        self._orc.point(f"after write({self._name}, {len(b)} bytes)")
+        return r
+
+    def flush(self):
+        self._fh.flush()
+        self._orc.point(f"after flush({self._name})")
+
+    def close(self):
+        self._orc.point(f"before close({self._name})")
+        self._fh.close()
+        self._orc.point(f"after close({self._name})")
+
+    def __enter__(self):
+        return self
+
+    def __exit__(self, *a):
+        self.close()
+        return False
+
+    def __getattr__(self, k):
+        return getattr(self._fh, k)
+
+
+class DiskOracle:
+    def __init__(self, d: pathlib.Path, snaps: "Snapshots"):
+        self.d, self.snaps = d, snaps
+        self.points = []  # [label, {file name: classification}]
+        self._cache = {}
+
+    def point(self, label):
+        """read the directory through fresh OS-level reads, exactly as another process (or the next boot) sees it"""
+        st = {}
+        for p in sorted(self.d.iterdir()):
+            try:
+                with open(p, "rb") as f:
+                    b = f.read()
+            except OSError:
+                continue
+            k = hash(b)
+            if k not in self._cache:
+                try:
+                    self._cache[k] = [getattr(real_pickle.loads(b), "_verif_token", "?"), True, len(b)]
+                except Exception:
+                    self._cache[k] = [None, False, len(b)]
+            st[name_of_path(self.d, p)] = self._cache[k]
+        self.points.append([label, st])
+
+    def wrap(self, label, fn):
+        def w(*a, **k):
+            self.point("before " + label)
+            try:
+                return fn(*a, **k)
+            finally:
+                self.point("after " + label)
+        return w
+
+    def open(self, path, mode="r", *a, **k):
+        if "w" not in mode and "a" not in mode and "+" not in mode:
+            return open(path, mode, *a, **k)
+        n = name_of_path(self.d, path)
+        self.point(f"before open({n})")
+        fh = open(path, mode, *a, **k)
+        self.point(f"after open({n})")
+        return _FileProxy(fh, self, n)
+
+
+def run_disk_oracle(snaps: Snapshots, initial):
+    """Run the REAL save_simulation (token New) from the directory `initial` and return the on-disk content at
+    every crash point: before and immediately after each file-system call and each write of the dump."""
+    import emu_mps.mps_backend_impl as im
+
+    with mr.scratch_dir("c27o") as d:
+        for n, v in initial:
+            if v is not None:
+                path_of(d, n).write_bytes(snaps.content(tuple(v)))
+        obj = real_pickle.loads(snaps.blob["New"])
+        obj.autosave_file = d / ADV_FILE
+        obj.last_save_time = float("-inf")
+        orc = DiskOracle(d, snaps)
+        nm = lambda p: name_of_path(d, p)  # noqa: E731
+        os_proxy = _Proxy(
+            os,
+            rename=lambda a, b: orc.wrap(f"os.rename({nm(a)}, {nm(b)})", os.rename)(a, b),
+            replace=lambda a, b: orc.wrap(f"os.replace({nm(a)}, {nm(b)})", os.replace)(a, b),
+            remove=lambda a: orc.wrap(f"os.remove({nm(a)})", os.remove)(a),
+            unlink=lambda a: orc.wrap(f"os.unlink({nm(a)})", os.unlink)(a),
+            path=_Proxy(os.path, getsize=lambda a: orc.wrap(f"getsize({nm(a)})", os.path.getsize)(a)))
+        err = ""
+        with mr.rebound(im, open=orc.open, os=os_proxy), \
+                mr.rebound(pathlib.Path,
+                           rename=lambda self, t: orc.wrap(f"Path.rename({nm(self)}, {nm(t)})", os.rename)(self, t),
+                           replace=lambda self, t: orc.wrap(f"Path.replace({nm(self)}, {nm(t)})", os.replace)(self, t),
+                           unlink=lambda self, missing_ok=False: orc.wrap(f"Path.unlink({nm(self)})", os.remove)(self)):
+            orc.point("start")
+            try:
+                obj.save_simulation()
+            except Exception as ex:  # noqa: BLE001
+                err = f"{type(ex).__name__}: {ex}"
+            orc.point("end")
+        return {"points": orc.points, "error": err}
+
+
+def disk_oracle_check(ctx, snaps, initial, size) -> bool:
+    r = run_disk_oracle(snaps, initial)
+    init = dict((n, v) for n, v in initial)
+    ok = True
+    for i, (label, st) in enumerate(r["points"]):
+        ctx.count_case({"oracle": "disk", "size": size, "initial": initial, "point": label, "dir": st}, True)
+        v = st.get("Adv")
+        if good_value(init.get("Adv")) and not (v is not None and v[1] and v[0] in ("Old", "New")):
+            key = "autosave-window" if v is None else "advertised-file-truncated-at-crash"
+            what = (f"a kill at crash point #{i} ({label}) leaves "
+                    + ("no file" if v is None else f"a truncated / unloadable file of {v[2]} bytes")
+                    + " under the advertised autosave name (previous complete snapshot already gone)")
+            ctx.violation(what, {"case": {"oracle": "disk", "size": size, "initial": initial, "point": i},
+                                 "label": label, "on_disk": st, "trail": [p[0] for p in r["points"][: i + 1]],
+                                 "finding_key": key})
+            ok = False
+            break
+    if ok and not r["error"] and r["points"][-1][1].get("Adv", [None])[0] != "New":
+        ctx.violation("a completed autosave did not leave the new snapshot under the advertised name",
+                      {"case": {"oracle": "disk", "size": size, "initial": initial, "point": None},
+                       "on_disk": r["points"][-1][1], "finding_key": "stale-autosave"})
+        ok = False
+    return ok
+
+
+SIGKILL_CHILD = r"""
+import os, pathlib, pickle, signal, sys
+import emu_mps.mps_backend_impl as im
+d, src, nth = pathlib.Path(sys.argv[1]), sys.argv[2], int(sys.argv[3])
+with open(src, "rb") as f:
+    obj = pickle.load(f)
+obj.autosave_file = d / sys.argv[4]
+obj.last_save_time = float("-inf")
+count = [0]
+def killing(fn):
+    def w(*a, **k):
+        r = fn(*a, **k)
+        count[0] += 1
+        if count[0] == nth:
+            os.kill(os.getpid(), signal.SIGKILL)
+        return r
+    return w
+class P:
+    def __init__(self, real, **o): self._r = real; self.__dict__.update(o)
+    def __getattr__(self, k): return getattr(self._r, k)
+im.os = P(os, rename=killing(os.rename), replace=killing(os.replace))
+obj.save_simulation()
+"""
+
+
+def sigkill_case(ctx, snaps, size):
+    """One REAL hard kill: a child process is SIGKILLed right after its first os.rename/os.replace returned."""
+    import subprocess
+    import sys
+
+    with mr.scratch_dir("c27k") as d:
+        work = d / "autosave"
+        work.mkdir()
+        (work / ADV_FILE).write_bytes(snaps.blob["Old"])
+        (d / "obj.pkl").write_bytes(snaps.blob["New"])
+        (d / "child.py").write_text(SIGKILL_CHILD)
+        p = subprocess.run([sys.executable, str(d / "child.py"), str(work), str(d / "obj.pkl"), "1", ADV_FILE],
+                           env=common.env_for_impl(), stdout=subprocess.PIPE, stderr=subprocess.STDOUT, timeout=300)
+        v = snaps.classify(work / ADV_FILE)
+        files = sorted(q.name for q in work.iterdir())
+        ctx.count_case({"oracle": "sigkill", "size": size, "rc": p.returncode, "adv": v, "files": files}, True)
+        if p.returncode != -9:
+            ctx.notes.append(f"sigkill child ended with rc={p.returncode}: {p.stdout.decode(errors='replace')[-300:]}")
+            return
+        if not good_value(v):
+            ctx.violation("a child process SIGKILLed right after its first rename left "
+                          + ("no file" if v is None else "a truncated pickle") + " under the advertised name",
+                          {"case": {"oracle": "sigkill", "size": size}, "adv": v, "files": files,
+                           "finding_key": "autosave-window" if v is None else "advertised-file-truncated-at-crash"})
+
+
 # ---- property oracle on the real directory (independent of the model) -----------------------------
 def good_value(v) -> bool:
     return v is not None and v[1] is True and v[0] in ("Old", "New")
@@ -478,6 +671,23 @@ def run(ctx):
         property_check(ctx, c, r)
         ctx.count_case({"corpus": c}, True)
 
+    # crash-instant disk oracle (needs no model): small and large (> 64 KiB buffers) snapshots
+    big = Snapshots(pad=60000)
+    o_names = names if len(names) > 1 else names + ["Sfx:new"]
+    o_inits = [[[n, ["Old", True] if n == "Adv" else None] for n in o_names]]
+    for v in (["Other", True], ["Other", False]):
+        o_inits += [[[n, ["Old", True] if n == "Adv" else (v if n == m else None)] for n in o_names]
+                    for m in o_names[1:]]
+    o_inits.append([[n, None] for n in o_names])  # the very first autosave
+    ctx.extra["disk_oracle"] = {"snapshot_bytes": {"small": len(snaps.blob["New"]), "big": len(big.blob["New"])},
+                                "initial_directories": len(o_inits)}
+    for size, sn in (("big", big), ("small", snaps)):
+        for ini in o_inits:
+            disk_oracle_check(ctx, sn, ini, size)
+    if ctx.thorough():
+        sigkill_case(ctx, big, "big")
+        sigkill_case(ctx, snaps, "small")
+
     corr_ok, corr_detail = True, ""
     hist = {"crash_points": 0, "completed": 0, "raised": 0, "resumes": 0, "resume_failed": 0}
 
@@ -562,6 +772,21 @@ def replay(ctx, path):
                       found_input=False)
         return
     c = rp["case"]
+    if c.get("oracle") == "disk":
+        sn = Snapshots(pad=60000 if c["size"] == "big" else 0)
+        r = run_disk_oracle(sn, c["initial"])
+        for i, (label, st) in enumerate(r["points"]):
+            print(f"#{i:2d} {label:45s} {st}")
+        if disk_oracle_check(ctx, sn, c["initial"], c["size"]):
+            print("replay: property holds on this input now")
+        return
+    if c.get("oracle") == "sigkill":
+        sn = Snapshots(pad=60000 if c["size"] == "big" else 0)
+        n0 = len(ctx.violations)
+        sigkill_case(ctx, sn, c["size"])
+        if len(ctx.violations) == n0:
+            print("replay: property holds on this input now")
+        return
     snaps = Snapshots()
     r = run_real(snaps, c["initial"], c["crash_after"], c.get("mode", "empty"), keep=True)
     print("initial directory :", c["initial"])
